@@ -350,14 +350,47 @@ def derived_strings(c, strs, limit=24):
     return out[:limit]
 
 
+def build_converter(recs, d, mode):
+    """The converter the records denote, built in one of three ways (the properties quantify over every converter, however
+    it came about): 0 the constructor; 1 Converter([]) + add_record one by one; 2 bare records first (add_prefix without synonym
+    arguments, or add_record for a pattern), their synonyms merged in afterwards with add_prefix(..., merge=True)."""
+    import curies
+
+    if mode == 0:
+        return curies.Converter(mk_records(recs), delimiter=d)
+    c = curies.Converter([], delimiter=d)
+    if mode == 1:
+        for r in mk_records(recs):
+            c.add_record(r)
+        return c
+    for p, u, ps, us, pat in recs:
+        if pat is None:
+            c.add_prefix(p, u)
+        else:
+            c.add_record(curies.Record(prefix=p, uri_prefix=u, pattern=pat.v))
+    for p, u, ps, us, pat in recs:
+        if ps or us:
+            c.add_prefix(p, u, prefix_synonyms=list(ps), uri_prefix_synonyms=list(us), merge=True)
+    return c
+
+
 def observe_q(case):
-    """case = [records, delimiter, strings, pairs]; returns (case with derived strings appended, observation)."""
-    recs, d, strs, pairs = case
-    code, c = construct(recs, d)
+    """case = [records, delimiter, strings, pairs (, build mode)]; returns (case with the records as the built converter holds
+    them and derived strings appended, observation)."""
+    recs, d, strs, pairs = case[:4]
+    mode = case[4] if len(case) > 4 else 0
+    if mode == 0:
+        code, c = construct(recs, d)
+    else:
+        try:
+            code, c = 0, build_converter(recs, d, mode)
+            recs = [v_record(r) for r in c.records]       # merging sorts the synonym lists
+        except Exception:
+            code, c = 3, None
     if c is None:
         return case, [code, []]
     strs = list(strs) + derived_strings(c, strs)
-    case = [recs, d, strs, pairs]
+    case = [recs, d, strs, pairs] + ([mode] if len(case) > 4 else [])
     return case, [0, battery(c, strs, pairs)]
 
 
@@ -392,11 +425,11 @@ def gen_qcase(rng: random.Random, focus: str):
                 strs.append(r[1] + "1")
         strs = list(dict.fromkeys(strs))
     pairs = gen_pairs(rng, recs, rng.randint(0, 2) if focus not in ("C02", "C08") else rng.randint(1, 3))
-    return [recs, d, strs, pairs]
+    return [recs, d, strs, pairs, rng.choice([0, 0, 0, 1, 2, 2])]
 
 
 def nontrivial_q(focus: str, case) -> bool:
-    recs, d, strs, pairs = case
+    recs, d, strs, pairs = case[:4]
     allu = [u for r in recs for u in [r[1], *r[3]]]
     allp = [p for r in recs for p in [r[0], *r[2]]]
     syn_p = [p for r in recs for p in r[2]]
